@@ -181,4 +181,9 @@ example : (withFrame true none (fun s => (s.record true (.file "x" "a"), .ok (.i
     { recs := [some [.file "outer" "s"]] }).1.recs = [some [.file "outer" "s"]] := by
   simp [withFrame]
 
+/-- Every successful load registers its dependency set with the reloader, empty or not (`HotReloader::add_asset` sends
+unconditionally): a key loaded again after a removal gets its OLD dependencies replaced. -/
+theorem C14_add_asset_always_sends :
+    AmVerif.Gen.skel_hot_reloading_mod_HotReloader_add_asset = [.call .s_AddAsset, .call .s_send] := rfl
+
 end AmVerif.Props.C14
